@@ -699,7 +699,11 @@ func handleInputStream(s *Session, handler Handler) (err error) {
 		verifhook.Yield("serve.lookup", id)
 		emptySpace := xml.Name{Local: start.Name.Local}
 		if ok && readerChan.stanzaName == start.Name || readerChan.stanzaName == emptySpace {
-			inner := xmlstream.Inner(r)
+			// A stream-level problem inside the response (a disallowed comment,
+			// processing instruction or directive, ...) must end the session even
+			// though it is the requester that runs into it first: keep the error
+			// for the advance to the end of the element below.
+			inner := xmlstream.Inner(&stickyReader{r: r})
 			select {
 			case readerChan.c <- iqResponder{
 				r: xmlstream.Wrap(inner, start),
